@@ -1037,7 +1037,13 @@ impl<'a, 'b> GeneratorState<'a> {
             Some(else_statement) => {
                 let else_label = format!(".else{}", self.local_label_counter_if);
                 self.generate_condition(condition, pos, true, &else_label, false)?;
-                let saved_flags = self.flags.clone();
+                // The flags are those of the last branch to the else label: with && / ||
+                // other branches reach it too, each with its own flags
+                let saved_flags = if has_logical_operator(condition) {
+                    FlagsState::Unknown
+                } else {
+                    self.flags.clone()
+                };
                 self.generate_statement(body)?;
                 self.asm(JMP, &ExprType::Label(ifend_label.clone()), 0, false)?;
                 self.label(&else_label)?;
@@ -1134,6 +1140,15 @@ impl<'a, 'b> GeneratorState<'a> {
         self.label(&switchend_label)?;
         self.loops.pop();
         Ok(())
+    }
+}
+
+// Is this condition lowered to branches on more than one comparison ?
+fn has_logical_operator(condition: &Expr) -> bool {
+    match condition {
+        Expr::BinOp { op, .. } => matches!(op, Operation::Land | Operation::Lor),
+        Expr::Not(e) => has_logical_operator(e),
+        _ => false,
     }
 }
 
